@@ -57,6 +57,7 @@ def run(ctx):
     ctx.do(rule_integer_tests_exclude_bool)
     ctx.do(rule_ignorecase_is_ascii)
     ctx.do(rule_floats_finite)
+    ctx.do(rule_uuid_compared_in_canonical_form)
     ctx.do(rule_constraint_presence_tests)
     ctx.do(rule_helpers_examine_every_pair)
     from .pitfalls import rule_base64_validated_strictly
@@ -1357,3 +1358,23 @@ def _tlp_tests(br):
             if isinstance(n, ast.If):
                 out.append(n)
     return out
+
+
+def rule_uuid_compared_in_canonical_form(ctx, rule_id="C02.clean-contract"):
+    """uuid.UUID() reads braces, a urn:uuid: prefix, missing and MISPLACED hyphens; an identifier is valid only in the plain
+    hyphenated form.  _check_uuid decides that by comparing the canonical text of the parsed UUID with the text given
+    (str(<UUID>) == <text>.lower()): a weaker stand-in (a length test) admits '12345678123-4-...' with the hyphens anywhere.
+    The comparison is present and feeds the verdict on every non-interoperability path."""
+    run = ctx.run
+    prog = ctx.prog
+    fi = prog.func("stix2.properties::_check_uuid")
+    p0 = fi.params[0]
+    objs = {norm(a.targets[0]) for a in body_walk(fi.node) if isinstance(a, ast.Assign) and isinstance(a.value, ast.Call)
+            and norm(a.value.func) in ("uuid.UUID", "UUID")}
+    cmps = [c for c in body_walk(fi.node) if isinstance(c, ast.Compare) and len(c.ops) == 1 and isinstance(c.ops[0], ast.Eq)
+            and any(isinstance(s_, ast.Call) and call_simple_name(s_) == "str" and s_.args and norm(s_.args[0]) in objs for s_ in (c.left, c.comparators[0]))
+            and any(p0 in {n_.id for n_ in ast.walk(s_) if isinstance(n_, ast.Name)} for s_ in (c.left, c.comparators[0]))]
+    run.check(bool(objs) and bool(cmps), rule_id, key(fi.module.relpath, fi.qualname, "canonical-text-compared"),
+              "the identifier's UUID part is not compared with the canonical text of the parsed UUID: forms uuid.UUID() tolerates "
+              "(hyphens in other places, braces, urn: prefix) pass as identifiers and are emitted", file=fi.module.relpath,
+              line=fi.node.lineno, function=fi.qualname, expected="str(uuid_obj) == uuid_str.lower()", found="no such comparison")
